@@ -287,7 +287,9 @@ func (b *refBuilder) factor(f *model.File, root *model.Node, depth int, maxPick 
 func hasLocalRef(n *model.Node) bool {
 	found := false
 	model.Walk(n, func(x *model.Node) {
-		if x.Kind == model.KRef && strings.HasPrefix(x.Ref, "#") {
+		// same-file references, and file references spelled relative to this file's directory,
+		// would dangle if the subtree moved to another document
+		if x.Kind == model.KRef && (strings.HasPrefix(x.Ref, "#") || !strings.Contains(x.Ref, gen.RootToken)) {
 			found = true
 		}
 	})
@@ -745,6 +747,28 @@ type recCase struct {
 	files []gen.FileText
 	typ   string
 	docs  func(depth int) jv.V
+	wrap  func(jv.V) jv.V // set when the recursion is the value/next chain: enables invalid deep documents
+}
+
+// badChain: a value/next chain of the given depth whose level `at` lacks the
+// required "value" (or carries a string there).
+func badChain(depth, at int, wrongType bool) jv.V {
+	mk := func(i int) jv.V {
+		if i == at {
+			if wrongType {
+				return jv.ObjV(jv.Field("value", jv.StrV("x")))
+			}
+			return jv.ObjV()
+		}
+		return jv.ObjV(jv.Field("value", jv.IntV(int64(i))))
+	}
+	v := mk(depth)
+	for i := depth - 1; i >= 0; i-- {
+		n := mk(i)
+		n.O = append(n.O, jv.KV{K: "next", V: v})
+		v = n
+	}
+	return v
 }
 
 // anyOfItemsCycle: two definitions that refer to each other through
@@ -773,12 +797,19 @@ func recursiveCases(t *rapid.T) *recCase {
 	}
 	defsKw := rapid.SampledFrom([]string{"$defs", "definitions"}).Draw(t, "defskw")
 	refp := "#/" + defsKw + "/"
-	switch rapid.IntRange(0, 5).Draw(t, "reckind") {
+	switch rapid.IntRange(0, 6).Draw(t, "reckind") {
+	case 6: // a sibling file (other $id) whose root refers to itself through "#"
+		a := `{"$id":"https://example.com/prog","type":"object","properties":{"list":{"$ref":"other.json"}},"required":["list"]}`
+		b := `{"$id":"https://example.com/other","type":"object","properties":{"value":{"type":"integer"},"next":{"$ref":"#"}},"required":["value"]}`
+		return &recCase{name: "cross.hash", files: []gen.FileText{{RelPath: "prog.json", Text: a}, {RelPath: "other.json", Text: b}}, typ: "ProgJson",
+			docs: func(d int) jv.V { return jv.ObjV(jv.Field("list", nestDoc("prop", d))) },
+			wrap: func(v jv.V) jv.V { return jv.ObjV(jv.Field("list", v)) }}
 	case 0: // self reference through a property
 		text := `{"$id":"https://example.com/prog","type":"object","properties":{"head":{"$ref":"` + refp + `Node"}},"` + defsKw + `":{"Node":` +
 			obj(`"value":{"type":"integer"},"next":{"$ref":"`+refp+`Node"}`, `,"required":["value"]`) + `}}`
 		return &recCase{name: "self.property", files: []gen.FileText{{RelPath: "prog.json", Text: text}}, typ: "ProgJson",
-			docs: func(d int) jv.V { return jv.ObjV(jv.Field("head", nestDoc("prop", d))) }}
+			docs: func(d int) jv.V { return jv.ObjV(jv.Field("head", nestDoc("prop", d))) },
+			wrap: func(v jv.V) jv.V { return jv.ObjV(jv.Field("head", v)) }}
 	case 1: // through array items
 		text := `{"$id":"https://example.com/prog","type":"object","properties":{"tree":{"$ref":"` + refp + `Tree"}},"` + defsKw + `":{"Tree":` +
 			obj(`"name":{"type":"string"},"children":{"type":"array","items":{"$ref":"`+refp+`Tree"}}`, `,"required":["name"]`) + `}}`
@@ -787,7 +818,7 @@ func recursiveCases(t *rapid.T) *recCase {
 	case 2: // through "#"
 		text := `{"$id":"https://example.com/prog","type":"object","properties":{"value":{"type":"integer"},"next":{"$ref":"#"}},"required":["value"]}`
 		return &recCase{name: "self.hash", files: []gen.FileText{{RelPath: "prog.json", Text: text}}, typ: "ProgJson",
-			docs: func(d int) jv.V { return nestDoc("prop", d) }}
+			docs: func(d int) jv.V { return nestDoc("prop", d) }, wrap: func(v jv.V) jv.V { return v }}
 	case 3: // mutual recursion of two definitions
 		text := `{"$id":"https://example.com/prog","type":"object","properties":{"root":{"$ref":"` + refp + `A"}},"` + defsKw + `":{"A":` +
 			obj(`"a":{"type":"integer"},"b":{"$ref":"`+refp+`B"}`, `,"required":["a"]`) + `,"B":` + obj(`"s":{"type":"string"},"a":{"$ref":"`+refp+`A"}`, `,"required":["s"]`) + `}}`
@@ -798,12 +829,13 @@ func recursiveCases(t *rapid.T) *recCase {
 			obj(`"value":{"type":"integer"},"next":{"$ref":"`+refp+`B"}`, `,"required":["value"]`) + `,"B":` + obj(`"value":{"type":"integer"},"next":{"$ref":"`+refp+`C"}`, `,"required":["value"]`) +
 			`,"C":` + obj(`"value":{"type":"integer"},"next":{"$ref":"`+refp+`A"}`, `,"required":["value"]`) + `}}`
 		return &recCase{name: "mutual.three", files: []gen.FileText{{RelPath: "prog.json", Text: text}}, typ: "ProgJson",
-			docs: func(d int) jv.V { return jv.ObjV(jv.Field("root", nestDoc("prop", d))) }}
+			docs: func(d int) jv.V { return jv.ObjV(jv.Field("root", nestDoc("prop", d))) },
+			wrap: func(v jv.V) jv.V { return jv.ObjV(jv.Field("root", v)) }}
 	default: // across files
 		a := `{"$id":"https://example.com/prog","type":"object","properties":{"value":{"type":"integer"},"next":{"$ref":"other.json"}},"required":["value"]}`
 		b := `{"$id":"https://example.com/other","type":"object","properties":{"value":{"type":"integer"},"next":{"$ref":"prog.json"}},"required":["value"]}`
 		return &recCase{name: "cross.file", files: []gen.FileText{{RelPath: "prog.json", Text: a}, {RelPath: "other.json", Text: b}}, typ: "ProgJson",
-			docs: func(d int) jv.V { return nestDoc("prop", d) }}
+			docs: func(d int) jv.V { return nestDoc("prop", d) }, wrap: func(v jv.V) jv.V { return v }}
 	}
 }
 
@@ -845,6 +877,15 @@ func evalRecursive(cs *gen.Case, jobs []core.Job) (bool, string, error) {
 		if r.Skipped != "" {
 			return false, "", fmt.Errorf("job skipped: %s", r.Skipped)
 		}
+		if j.Expect == "reject" {
+			if r.Panic != nil || r.Crash != "" {
+				return true, fmt.Sprintf("recursive type panics on an invalid nested document (%s): %s", j.Label, r.ErrText()), nil
+			}
+			if r.Err == nil {
+				return true, fmt.Sprintf("recursive type accepts an invalid nested document (%s): %s", j.Label, core.Clip(j.Doc, 200)), nil
+			}
+			continue
+		}
 		if !r.Accepted() {
 			return true, fmt.Sprintf("recursive type rejects a valid nested document (%s): %s", j.Label, r.ErrText()), nil
 		}
@@ -878,6 +919,18 @@ func runRecursive(c *core.Ctx) {
 		var jobs []core.Job
 		for _, d := range []int{0, 1, 2, 3, 10, 50, 200} {
 			jobs = append(jobs, core.Job{Type: rc.typ, Op: "json", Doc: string(rc.docs(d).Marshal()), Expect: "accept", Label: fmt.Sprintf("%s depth %d", rc.name, d)})
+		}
+		if rc.wrap != nil {
+			for _, spec := range [][2]int{{1, 1}, {2, 2}, {3, 2}, {5, 5}, {10, 7}, {40, 33}} {
+				for _, wrong := range []bool{false, true} {
+					kind := "missing required"
+					if wrong {
+						kind = "wrong type"
+					}
+					jobs = append(jobs, core.Job{Type: rc.typ, Op: "json", Doc: string(rc.wrap(badChain(spec[0], spec[1], wrong)).Marshal()), Expect: "reject",
+						Label: fmt.Sprintf("%s depth %d, %s at level %d", rc.name, spec[0], kind, spec[1])})
+				}
+			}
 		}
 		c.Count("recursive." + rc.name)
 		failed, msg, err := evalRecursive(cs, jobs)
